@@ -59,20 +59,20 @@ def families(tier):
         hs.append(dict(bus='B', pat='Z', name='hzB', prog=[('ret', 3)]))
         add('c09.forward', f'{topo.replace(">", "to")}-{where}-{child}-p{int(par)}', buses, hs, main, forwards=fw, fwd_first=(where == 'before'), topo=topo)
     # a handler keeps dispatching / reading event.event_bus AFTER an awaited child of it failed (its handler raised or timed out) or succeeded
-    for fail, fwd, par, nxt in itertools.product(['raise', 'timeout', 'ok', 'raise_after_pause'], (False, True), (False, True), ['ff', 'await']):
-        names = ['A', 'B'] if fwd else ['A']
+    for fail, fwd, par, nxt, cbus in itertools.product(['raise', 'timeout', 'ok', 'raise_after_pause'], (False, True), (False, True), ['ff', 'await'], 'AB'):
+        names = ['A', 'B'] if (fwd or cbus == 'B') else ['A']
         copt = {'timeout': 0.5} if fail == 'timeout' else {}
         hc = {'raise': [('raise', 'ValueError')], 'timeout': [('pause',), ('pause',)], 'ok': [('ret', 1)], 'raise_after_pause': [('pause',), ('raise', 'Custom')]}[fail]
-        h1 = [('bus?',), ('try_await', 'A', 'C', 'await', copt), ('bus?',), ('disp', 'A', 'G', nxt), ('pause',), ('bus?',), ('disp', 'A', 'G2', 'ff')]
-        hs = [dict(bus='A', pat='P', name='h1', prog=h1), dict(bus='A', pat='C', name='hcA', prog=hc), dict(bus='A', pat='G', name='hgA', prog=[('bus?',), ('ret', 1)]),
+        h1 = [('bus?',), ('try_await', cbus, 'C', 'await', copt), ('bus?',), ('disp', 'A', 'G', nxt), ('pause',), ('bus?',), ('disp', 'A', 'G2', 'ff')]
+        hs = [dict(bus='A', pat='P', name='h1', prog=h1), dict(bus=cbus, pat='C', name='hc' + cbus, prog=hc if cbus == 'A' else [('bus?',)] + hc), dict(bus='A', pat='G', name='hgA', prog=[('bus?',), ('ret', 1)]),
               dict(bus='A', pat='P', name='h2', prog=[('bus?',), ('disp', 'A', 'Q', 'ff')]), dict(bus='A', pat='Q', name='hq', prog=[('ret', 0)])]
         if fwd:
-            hs += [dict(bus='B', pat='P', name='hpB', prog=[('bus?',), ('pause',)]), dict(bus='B', pat='C', name='hcB', prog=[('ret', 2)]), dict(bus='B', pat='G', name='hgB', prog=[('bus?',)]),
+            hs += [dict(bus='B', pat='P', name='hpB', prog=[('bus?',), ('pause',)])] + ([dict(bus='B', pat='C', name='hcB', prog=[('ret', 2)])] if cbus == 'A' else []) + [dict(bus='B', pat='G', name='hgB', prog=[('bus?',)]),
                    dict(bus='B', pat='Q', name='hqB', prog=[('ret', 0)])]
         main = [('disp', 'A', 'P', 'await'), ('disp', 'A', 'X', 'ff')]
         hs.append(dict(bus='A', pat='X', name='hx', prog=[('bus?',)]))
         buses = {n: dict(parallel=(par and n == 'A')) for n in names}
-        add('c09.after_child_outcome', f'{fail}-f{int(fwd)}-p{int(par)}-{nxt}', buses, hs, main, forwards=[('A', 'B')] if fwd else [], fwd_first=fwd, fail=fail)
+        add('c09.after_child_outcome', f'{fail}-f{int(fwd)}-p{int(par)}-{nxt}-c{cbus}', buses, hs, main, forwards=[('A', 'B')] if fwd else [], fwd_first=fwd, fail=fail)
     for shape in ['redisp_pause', 'redisp_child']:
         hp = [('redisp', 'A', 'self'), ('pause',)] if shape == 'redisp_pause' else [('redisp', 'A', 'self'), ('disp', 'A', 'C', 'await')]
         hs = [dict(bus='A', pat='P', name='hp', prog=hp), dict(bus='A', pat='C', name='hc', prog=[('disp', 'A', 'G', 'ff', {'parent': 'P'})]),
